@@ -396,4 +396,15 @@ Module CacheExample.
     thr _ _ _ _ _ final = [TMissed _ _ 3; TRet _ _ 99 (hashx 99 (mkx (epx 99)))] /\
     map fst (hdrc _ _ _ _ _ final) = [99; 40].
   Proof. vm_compute. auto. Qed.
+  (** without the mutex around getOrDefault (lookup / store epoch / store entry as separate steps of a
+      last-epoch-only cache): two overlapping misses leave (epoch 1, entry of epoch 0) behind and the next
+      request for epoch 1 is answered with a hash computed from the wrong epoch entry *)
+  Definition unlocked_ops : list (uop nat) :=
+    [UStart _ 0 3; UStart _ 1 9; UWriteEp _ 0; UWriteEp _ 1; UWriteEnt _ 1; UWriteEnt _ 0; UStart _ 2 10].
+  Definition unlocked_final :=
+    usys_run nat nat nat nat epx Nat.eqb mkx hashx unlocked_ops (usys_init _ _ _ _ 3).
+  Lemma unlocked_getOrDefault_refuted_lemma :
+    exists h v, nth_error (uthreads _ _ _ _ unlocked_final) 2 = Some (UDone _ _ _ h v) /\
+                v <> f nat nat nat nat epx mkx hashx h.
+  Proof. exists 10, (hashx 10 (mkx 0)). vm_compute. split; [reflexivity | discriminate]. Qed.
 End CacheExample.
